@@ -74,10 +74,15 @@ def run_case(spec):
     try:
         with warnings.catch_warnings(), np.errstate(all='ignore'):
             warnings.simplefilter('ignore')
-            if spec['state'] == 'mid':
-                s.run(n_like_max=8 * cfg['n_live'] + 3 * cfg['n_batch'], **workloads.run_kwargs(cfg))
-            else:
-                s.run(n_like_max=40000, **workloads.run_kwargs(cfg, discard_exploration=(spec['state'] == 'discard')))
+            from ..instrument import Hooks, VirtualClock
+            try:
+                with Hooks([], proposal_budget=30_000_000, clock=VirtualClock()):
+                    if spec['state'] == 'mid':
+                        s.run(n_like_max=8 * cfg['n_live'] + 3 * cfg['n_batch'], **workloads.run_kwargs(cfg))
+                    else:
+                        s.run(n_like_max=40000, **workloads.run_kwargs(cfg, discard_exploration=(spec['state'] == 'discard')))
+            except workloads.BudgetExceeded as e:
+                return {'status': 'skipped', 'reason': 'run before the draws: %s' % e, 'obs': obs}
             if path is not None and spec['i'] % 4 == 3 and os.path.exists(path):
                 # draws from a sampler object resumed from its checkpoint
                 workloads.close_sampler(s)
